@@ -2943,6 +2943,249 @@ def r04_10(prog, rep, rid='R04.10'):
 
 
 # ------------------------------------------------------------------------------
+# R04.11  the count of started tasks goes up only together with a start
+#
+# `_try_allocation` fails a task which cannot be placed only while
+# `_active_cnt == 0` (R04.2).  The branch of the intake which starts a task
+# with application-supplied slots counts it by hand.  The count and the start
+# must come together on every path - including the path on which a statement
+# between the two raises into an enclosing handler that disposes of the task
+# in another way (failed, `continue`): a count without a start is never taken
+# back, because only the release of a started task decrements it.
+#
+def _is_cnt_step(n, op):
+    a = n.ast
+    return n.kind == 'stmt' and isinstance(a, ast.AugAssign) and \
+        isinstance(a.op, op) and unparse(a.target) == 'self._active_cnt'
+
+
+def _start_calls(prog, f, K, depth=1):
+    """calls in f which start a task: a hand-on as AGENT_EXECUTING_PENDING, or
+    a call of a method of the class which contains one"""
+    target = prog.const('states.py', 'AGENT_EXECUTING_PENDING')
+    out = []
+    for c in calls_in(f.node):
+        if I.is_handon(c):
+            if I.handon_state(prog, f, c) == target:
+                out.append(c)
+        elif depth and isinstance(c.func, ast.Attribute) and \
+                isinstance(c.func.value, ast.Name) and \
+                c.func.value.id == 'self':
+            h = prog.resolve_call(f, c, K)
+            if h is not None and h is not f and \
+                    _start_calls(prog, h, K, depth - 1):
+                out.append(c)
+    return out
+
+
+def r04_11(prog, rep, rid='R04.11'):
+    rep.rule(rid, 'where the scheduler counts a task as started by hand '
+             '(`_active_cnt += 1` next to the start hand-on) every path '
+             'through the increment - exceptions into enclosing handlers '
+             'included - also passes the start (or takes the count back)',
+             minimum=1)
+    K = prog.cls(BASE[0], BASE[1])
+    for name, f in sorted(K.methods.items()):
+        if not any(isinstance(n, ast.AugAssign) and isinstance(n.op, ast.Add)
+                   and unparse(n.target) == 'self._active_cnt'
+                   for n in walk(f.node)):
+            continue
+        starts = _start_calls(prog, f, K)
+        if not starts:
+            continue            # grant by return value: R03.3 (grant paths)
+        rep.saw(f)
+        g = cfg_of(f)
+        smap = I.stmt_node_map(g)
+        via = {smap[id(c)].id for c in starts if id(c) in smap}
+        via |= {n.id for n in g.nodes if _is_cnt_step(n, ast.Sub)}
+        for n in g.nodes:
+            if not _is_cnt_step(n, ast.Add):
+                continue
+            if n.loops:
+                head = n.loops[-1]
+                body = g.loop_body[head]
+                begin = loop_slice(g, head)[0]
+            else:
+                head, body, begin = None, None, g.entry.id
+            # a path of one iteration (one call) which reaches the increment
+            # without a start ..
+            before = set()
+            todo = [begin]
+            while todo:
+                x = todo.pop()
+                if x in before or x in via or \
+                        (body is not None and x not in body):
+                    continue
+                before.add(x)
+                if x == n.id:
+                    continue
+                todo += [e.dst for e in g.succ[x]
+                         if not (e.back and e.dst == head)]
+            # .. and leaves the iteration (the call) after it without one
+            leaves = None
+            seen = set()
+            todo = [(e.dst, e, [n.id]) for e in g.succ[n.id]
+                    if e.label != 'exc']
+            while todo and leaves is None:
+                x, e, path = todo.pop()
+                if (e.back and e.dst == head) or \
+                        (body is not None and x not in body) or \
+                        x in (g.exit.id, g.raise_.id):
+                    leaves = path + [x]
+                    break
+                if x in seen or x in via:
+                    continue
+                seen.add(x)
+                todo += [(e2.dst, e2, path + [x]) for e2 in g.succ[x]]
+            okay = not (n.id in before and leaves is not None)
+            raising = None
+            if leaves is not None:
+                for a, b in zip(leaves, leaves[1:]):
+                    if any(e.dst == b and e.label == 'exc'
+                           for e in g.succ[a]) and g.nodes[a].ast is not None:
+                        raising = g.nodes[a]
+                        break
+            rep.check(okay, rid, f, '`_active_cnt += 1` in %s comes with a '
+                      'start on every path' % f.qual, construct=n.ast,
+                      message='%s: `%s` is executed on a path on which the '
+                      'task is not started (%s): the count of started tasks '
+                      'stays one too high for ever, because only the release '
+                      'of a started task takes it back' % (
+                          f.qual, short(n.ast, 40),
+                          'when `%s` raises afterwards, the handler disposes '
+                          'of the task and goes on' % short(raising.ast, 50)
+                          if raising is not None else 'the iteration / call '
+                          'ends without the start hand-on'), loc=f.loc(n.ast),
+                      history='a task arrives with application-supplied slots '
+                      'naming a node that does not exist: it is failed, the '
+                      'count stays 1; later a task which does not fit even '
+                      'the idle pilot arrives: `_active_cnt == 0` never holds '
+                      'again, the task waits for ever instead of being failed')
+
+
+# ------------------------------------------------------------------------------
+# R04.12  what is_canceled() reported as CANCELED is not given to the worker
+#
+# BaseComponent.work_cb hands the things of one state to the worker (for the
+# scheduler: `work`, which queues them for the scheduling loop).  Before, it
+# asks self.is_canceled(x) for each of them; a true answer means that x has
+# been handed on as CANCELED (R04.7).  So the list the worker gets must be the
+# one from which those things were taken out: the value computed with the
+# help of is_canceled must be a definition of the worker's argument which
+# reaches the call.
+#
+def _asks_canceled(prog, f, K, e, depth=2):
+    for c in walk(e):
+        if not isinstance(c, ast.Call):
+            continue
+        if call_name(c) == 'self.is_canceled':
+            return True
+        if depth and isinstance(c.func, ast.Attribute) and \
+                isinstance(c.func.value, ast.Name) and \
+                c.func.value.id == 'self':
+            h = prog.resolve_call(f, c, K)
+            if h is not None and h is not f and h.name != 'is_canceled' and \
+                    _asks_canceled(prog, h, K, h.node, depth - 1):
+                return True
+    return False
+
+
+def r04_12(prog, rep, rid='R04.12'):
+    rep.rule(rid, 'the list of things BaseComponent passes to a worker is the '
+             'list from which the things is_canceled() reported as CANCELED '
+             'have been taken out', minimum=1)
+    K = prog.cls(BASE[0], BASE[1])
+    comp = prog.find_method(K, 'is_canceled')
+    if comp is None or comp.cls is None:
+        raise AnalysisError('anchor is_canceled of %s not found' % K.name)
+    C = comp.cls
+    for name, f in sorted(C.methods.items()):
+        wcalls = [c for c in calls_in(f.node)
+                  if isinstance(c.func, ast.Subscript) and
+                  unparse(c.func.value) == 'self._workers']
+        if not wcalls:
+            continue
+        rep.saw(f)
+        g = cfg_of(f)
+        smap = I.stmt_node_map(g)
+        # statements which ask is_canceled and what they (re)define
+        asking = []
+        for n in g.nodes:
+            if n.ast is None or n.kind not in ('stmt', 'test', 'for'):
+                continue
+            root = n.ast.iter if n.kind == 'for' else n.ast
+            if _asks_canceled(prog, f, K, root):
+                asking.append(n)
+        for c in wcalls:
+            wn = smap.get(id(c))
+            if wn is None or len(c.args) != 1 or c.keywords:
+                raise AnalysisError('UNRECOGNISED-IDIOM %s: worker call `%s`'
+                                    % (f.where, short(c, 50)))
+            arg = c.args[0]
+            if _asks_canceled(prog, f, K, arg):
+                rep.ok(rid, f, 'worker argument filtered in place',
+                       f.loc(c))
+                continue
+            if not isinstance(arg, ast.Name):
+                raise AnalysisError('UNRECOGNISED-IDIOM %s: worker argument '
+                                    '`%s`' % (f.where, short(arg, 50)))
+            # asking statements from which the worker call is reached
+            # (in the same iteration of the loops the call is in)
+            outer = [e for m in g.nodes for e in g.succ[m.id]
+                     if e.back and e.dst in wn.loops]
+            prior = [n for n in asking
+                     if wn.id in g.reachable(
+                         [e.dst for e in g.succ[n.id] if e.label != 'exc'],
+                         skip_edges=outer)]
+            if not prior:
+                rep.ok(rid, f, 'nothing is reported CANCELED before the '
+                       'worker call', f.loc(c))
+                continue
+            def derived(name, at, depth=3):
+                """the value of `name` at node `at` was computed with the help
+                of is_canceled: by an asking statement, as a copy of such a
+                value, or collected by appends which an asking test guards"""
+                for d, v in reaching_defs(g, name, at):
+                    if d.kind == 'stmt' and any(d is q for q in prior):
+                        return True
+                    if isinstance(v, ast.Call) and len(v.args) == 1 and \
+                            not v.keywords and \
+                            dotted(v.func) in ('list', 'tuple', 'ru.as_list'):
+                        v = v.args[0]
+                    if depth and isinstance(v, ast.Name) and \
+                            derived(v.id, d.id, depth - 1):
+                        return True
+                for n in g.nodes:
+                    if not (_is_append(n) and
+                            isinstance(n.ast.value.func.value, ast.Name) and
+                            n.ast.value.func.value.id == name):
+                        continue
+                    gs = {t for t, lab in guards(g, n.id)}
+                    if (any(n is q for q in prior) or
+                            any(q.id in gs for q in prior)) and \
+                            at in g.reachable(n.id, skip_edges=outer):
+                        return True
+                return False
+
+            filt = derived(arg.id, wn.id)
+            others = sorted({short(p.ast.iter if p.kind == 'for' else p.ast,
+                                   60) for p in prior})
+            rep.check(filt, rid, f, 'the worker gets the list filtered '
+                      'by is_canceled', construct=c,
+                      message='%s: `%s` passes `%s` to the worker, but what '
+                      'the cancel filter before it computes (`%s`) is not a '
+                      'definition of `%s` that reaches this call: a thing for '
+                      'which is_canceled() answered true - and which it has '
+                      'handed on as CANCELED - is still given to the worker'
+                      % (f.qual, short(c, 50), arg.id, '`, `'.join(others),
+                         arg.id), loc=f.loc(c),
+                      history='the cancel request for task B is seen before B '
+                      'arrives on the scheduler\'s input queue: work_cb '
+                      'reports B as CANCELED and still passes it to work(): '
+                      'B is scheduled and started - canceled and started')
+
+
+# ------------------------------------------------------------------------------
 #
 def run(prog, rep, tier):
     rep.decided = ('exactly one outcome per task on every path of the intake '
@@ -2961,7 +3204,11 @@ def run(prog, rep, tier):
         'scheduler task exactly on the paths on which it handed the task on '
         'as CANCELED (key tests on the task dict are evaluated for a task '
         'that has passed advance); schedule_task refuses a task on a '
-        'request/offer comparison only when the request is strictly larger.')
+        'request/offer comparison only when the request is strictly larger; '
+        'the by-hand count of a pre-placed task comes with its start on '
+        'every path incl. exceptions into enclosing handlers; the list '
+        'work_cb passes to the worker is derived from the is_canceled '
+        'filter before it.')
     rep.undecided = ('absence of starvation in general and "as soon as" '
         '(timing of the loop); the bisect heuristics of ru.lazy_bisect.')
     rep.assumptions = [
@@ -2985,6 +3232,8 @@ def run(prog, rep, tier):
     rep.attempt(r04_8, prog, rep)
     rep.attempt(r04_9, prog, rep)
     rep.attempt(r04_10, prog, rep)
+    rep.attempt(r04_11, prog, rep)
+    rep.attempt(r04_12, prog, rep)
     # the counter the rule R04.2 rests on
     from .c03 import r03_3
     rep.attempt(r03_3, prog, rep, rid='R03.3')
@@ -3031,6 +3280,14 @@ _ISC_OLD = "            tid = task['uid']\n\n            if tid not in self._can
 _ISC_RES = "            tid = task['uid']\n            res = False\n\n            if tid in self._cancel_list:\n\n                if 'state' in task:\n                    self.advance(task, rps.CANCELED, publish=True, push=False)\n\n                self._cancel_list.remove(tid)\n                res = True\n\n            return res\n"
 _FR_ANCH = "        # find at most `n_slots`\n        loop_core_idx = 0\n"
 _FR_JNP = "        if not partial:\n            if alc_slots < n_slots:\n                return None\n"
+
+
+_PRE = "                    try:\n                        self._change_slot_states(task['slots'], rpc.BUSY)\n                    except Exception as e:\n                        self._fail_task(task, e,\n                                        '\\n'.join(ru.get_exception_trace()))\n                        continue\n                    self._active_cnt += 1\n\n                    self.advance(task, rps.AGENT_EXECUTING_PENDING,\n                                 publish=True, push=True, fwd=True)\n                    continue\n"
+_PRE_FAIL = "                        self._fail_task(task, e,\n                                        '\\n'.join(ru.get_exception_trace()))\n                        continue\n"
+_PRE_START = "                    self.advance(task, rps.AGENT_EXECUTING_PENDING,\n                                 publish=True, push=True, fwd=True)\n                    continue\n"
+_WFILT = "                    if self._cancel_list:\n                        things = [x for x in things\n                                    if not self.is_canceled(x)]\n"
+_WCALL = "                    self._workers[state](things)\n"
+_WFOR = "            for state,things in buckets.items():\n"
 
 
 def _fr_pre(txt):
@@ -3194,6 +3451,22 @@ MUTATIONS = [
         "        if partial and node['cores'].count(rpc.FREE) < n_slots * cores_per_slot:\n            return None\n")),
     dict(name='R04.10 jsrun: the enough-for-all test no longer under `not partial`', rules=('R04.10',), edits=[
         (_J, _FR_JNP, "        if alc_slots < n_slots:\n            return None\n")]),
+    # round 7: R04.11, R04.12
+    dict(name='R04.11 pre-placed task counted inside the try, before the slot change that may raise (seed C04-j2)', rules=('R04.11',), edits=[
+        (_B, _PRE, "                    try:\n                        self._active_cnt += 1\n                        self._change_slot_states(task['slots'], rpc.BUSY)\n                    except Exception as e:\n" + _PRE_FAIL + "\n" + _PRE_START)]),
+    dict(name='R04.11 pre-placed task counted before the try', rules=('R04.11',), edits=[
+        (_B, _PRE, "                    self._active_cnt += 1\n                    try:\n                        self._change_slot_states(task['slots'], rpc.BUSY)\n                    except Exception as e:\n" + _PRE_FAIL + "\n" + _PRE_START)]),
+    dict(name='R04.11 count and start both inside the try, count first; the handler fails the task', rules=('R04.11',), edits=[
+        (_B, _PRE, "                    try:\n                        self._active_cnt += 1\n                        self._change_slot_states(task['slots'], rpc.BUSY)\n                        self.advance(task, rps.AGENT_EXECUTING_PENDING,\n                                     publish=True, push=True, fwd=True)\n                    except Exception as e:\n" + _PRE_FAIL + "                    continue\n")]),
+    dict(name='R04.12 cancel filter assigns another name than the worker gets (seed C04-j3)', rules=('R04.12',), edits=[
+        (_U, _WFOR, "            for state,bucket in buckets.items():\n"),
+        (_U, _WFILT, "                    if self._cancel_list:\n                        bucket = [x for x in bucket\n                                    if not self.is_canceled(x)]\n")]),
+    dict(name='R04.12 filtered list kept in a new local, worker gets the bucket', rules=('R04.12',), edits=[
+        (_U, _WFILT, "                    if self._cancel_list:\n                        active = [x for x in things\n                                    if not self.is_canceled(x)]\n")]),
+    dict(name='R04.12 canceled things collected by a loop into a list nobody passes on', rules=('R04.12',), edits=[
+        (_U, _WFILT, "                    keep = list()\n                    for x in things:\n                        if not self.is_canceled(x):\n                            keep.append(x)\n")]),
+    dict(name='R04.12 filter result overwritten by the bucket before the worker call', rules=('R04.12',), edits=[
+        (_U, _WFILT + "\n", "                    bucket = things\n" + _WFILT + "                    things = bucket\n\n")]),
 ]
 
 SILENT = [
@@ -3336,4 +3609,28 @@ SILENT = [
         (_J, _FR_JNP, "        if not partial and alc_slots < n_slots:\n            return None\n")]),
     dict(name='jsrun: enough-for-all test in the else branch of `if partial`', edits=[
         (_J, _FR_JNP, "        if partial:\n            pass\n        elif alc_slots < n_slots:\n            return None\n")]),
+    # round 7: R04.11, R04.12
+    dict(name='R04.11 slot change in try, count and start in its else clause', edits=[
+        (_B, _PRE, "                    try:\n                        self._change_slot_states(task['slots'], rpc.BUSY)\n                    except Exception as e:\n" + _PRE_FAIL + "                    else:\n                        self._active_cnt += 1\n                        self.advance(task, rps.AGENT_EXECUTING_PENDING,\n                                     publish=True, push=True, fwd=True)\n                        continue\n")]),
+    dict(name='R04.11 count inside the try after the slot change (last statement of the body)', edits=[
+        (_B, _PRE, "                    try:\n                        self._change_slot_states(task['slots'], rpc.BUSY)\n                        self._active_cnt += 1\n                    except Exception as e:\n" + _PRE_FAIL + "\n" + _PRE_START)]),
+    dict(name='R04.11 count and start in a helper method', edits=[
+        (_B, "                    self._active_cnt += 1\n\n" + _PRE_START, "                    self._start_placed(task)\n                    continue\n"),
+        (_B, _FAILDEF, "    def _start_placed(self, task):\n\n        self._active_cnt += 1\n        self.advance(task, rps.AGENT_EXECUTING_PENDING,\n                     publish=True, push=True, fwd=True)\n\n\n" + _FAILDEF)]),
+    dict(name='R04.12 loop variable and filter renamed consistently, worker gets the renamed list', edits=[
+        (_U, _WFOR, "            for state,bucket in buckets.items():\n"),
+        (_U, _WFILT, "                    if self._cancel_list:\n                        bucket = [x for x in bucket\n                                    if not self.is_canceled(x)]\n"),
+        (_U, _WCALL, "                    self._workers[state](bucket)\n"),
+        (_U, "                        for thing in things:\n                            thing['exception']        = repr(e)", "                        for thing in bucket:\n                            thing['exception']        = repr(e)"),
+        (_U, "                        self.advance(things, rps.FAILED, publish=True,\n", "                        self.advance(bucket, rps.FAILED, publish=True,\n")]),
+    dict(name='R04.12 filter as a loop which collects the things to keep', edits=[
+        (_U, _WFILT, "                    if self._cancel_list:\n                        keep = list()\n                        for x in things:\n                            if not self.is_canceled(x):\n                                keep.append(x)\n                        things = keep\n")]),
+    dict(name='R04.12 filter in a helper method', edits=[
+        (_U, _WFILT, "                    things = self._drop_canceled(things)\n"),
+        (_U, "    def work_cb(self):\n", "    def _drop_canceled(self, things):\n\n        if not self._cancel_list:\n            return things\n        return [x for x in things if not self.is_canceled(x)]\n\n\n    def work_cb(self):\n")]),
+    dict(name='R04.12 kept things collected into a new list which the worker gets', edits=[
+        (_U, _WFILT, "                    keep = list()\n                    for x in things:\n                        if self.is_canceled(x):\n                            continue\n                        keep.append(x)\n"),
+        (_U, _WCALL, "                    self._workers[state](keep)\n"),
+        (_U, "                        for thing in things:\n                            thing['exception']        = repr(e)", "                        for thing in keep:\n                            thing['exception']        = repr(e)"),
+        (_U, "                        self.advance(things, rps.FAILED, publish=True,\n", "                        self.advance(keep, rps.FAILED, publish=True,\n")]),
 ]
